@@ -648,6 +648,8 @@ class Builtins(Methods):
             else:
                 raise Unsupported("defaultdict factory")
             st.heap[dref.id] = DictObj(d.items + ((key, v),), d.default_factory)
+            if dref.id in self.ex.L.write_only:
+                self.ex.L.write_only.add(v.id)  # buckets of a write-only accumulator dict are write-only too
             return [(st, v)]
         if raise_missing:
             return [(st, Raised("KeyError", "dict"))]
